@@ -12,8 +12,8 @@
    to the value the generated JavaScript expression has in MiniJS, for every
    state / environment pair related by env_rel (each Soy variable is in the
    generated variable the generator's scope maps it to, or in opt_data).
-   Of the STATEMENT stages print / if / let / switch / foreach are proved (below); for-range, calls,
-   the template wrapper and msg are NOT: they are covered by translation validation only
+   Of the STATEMENT stages print / if / let / switch / foreach / for-range are proved (below); calls,
+   the template wrapper, css and msg are NOT: they are covered by translation validation only
    (go/cmd/soyverif/c04.go: every generated program is translated by the real
    soyjs.Write, run by node with soyutils.js and compared with the Go render).
    Stages kept for the record:
@@ -29,7 +29,9 @@
                                   isLast($x) of this and of enclosing loops anywhere in the body -- proved below as the
                                   same simulation step (the loop's frame on both sides, the generated xList_n / xLimit_n /
                                   xIndex_n / x_n variables, the freshness invariant through every round);
-                                  {for $x in range(..)} -- not proved
+     gen_correct_partial_for_range : {for $x in range(n)} / range(a, n) / range(a, n, s) with a positive step and n - a within
+                                  2^53, same loop functions -- proved below (xInit_n / xStep_n / xLimit_n =
+                                  Math.max(0, Math.ceil((n - xInit_n) / xStep_n)), x_n = xInit_n + xIndex_n * xStep_n)
      gen_correct_partial_calls  : call / param / data=           -- not proved
      gen_correct_partial_msg    : msg / plural with a bundle     -- not proved
    MiniJS idealises JavaScript: numbers are integers (a result beyond 2^53 is
@@ -224,6 +226,17 @@ Theorem C04_gen_correct_partial_loops : forall cf o lv st je jst x e body hasie 
 Proof. exact gen_correct_partial_loops. Qed.
 Print Assumptions C04_gen_correct_partial_loops.
 
+(* {for $x in range(..)} with one to three arguments of the expression subset (integers), a positive step, limit - init
+   within 2^53: the list the renderer builds (range_list, any sufficient fuel) has Math.max(0, Math.ceil((limit - init) / step))
+   elements init + k * step, which is what the generated counting loop binds x_n to *)
+Theorem C04_gen_correct_partial_for_range : forall cf o lv st je jst x a1 rest body hasie ie fuel text env' old,
+  c_oblig cf = [] -> (sdepth (SForRange x a1 rest body hasie ie) < fuel)%nat -> sim cf st je jst old ->
+  swf lv (SForRange x a1 rest body hasie ie) = true -> lvok lv (j_scope jst) ->
+  sout (c_ij cf) (mode st) go_print_text (sc_lookup (ctx st)) (SForRange x a1 rest body hasie ie) = Some (text, env') ->
+  sim_step cf o lv st je jst (SForRange x a1 rest body hasie ie) fuel text env' old.
+Proof. exact gen_correct_partial_for_range. Qed.
+Print Assumptions C04_gen_correct_partial_for_range.
+
 (* the JavaScript side alone says more: every variable other than the buffer whose name, read as a generated name,
    has a counter up to the generator's is left alone (so nothing an enclosing block relies on is overwritten) *)
 Theorem C04_js_exec_correct : forall ij mode buf s sc n env je old text env' j sc' n',
@@ -397,6 +410,32 @@ Example C04_loops_nonvacuous :
     }
   } else {
     output += 'none';
+  }
+".
+Proof. vm_compute. repeat split; reflexivity. Qed.
+
+(* {for $r in range(1, 8, 3)}{index($r)}={$r}{if not isLast($r)};{/if}{/for} *)
+Definition ex_range : cstmt :=
+  SForRange (b "r") (CInt 1) [CInt 8; CInt 3]
+    (BCons (SPrint (CLoop LIndex (b "r")) []) (BCons (SRaw (b "=")) (BCons (SPrint (CVar (b "r") []) [])
+    (BCons (SIf (CNot (CLoop LIsLast (b "r"))) (BCons (SRaw (b ";")) BNil) ENone) BNil)))) false BNil.
+Example C04_for_range_nonvacuous :
+  swf [] ex_range = true
+  /\ (match sout None 2 go_print_text (fun _ => None) ex_range with Some (t, _) => Some t | None => None end) = Some (b "0=1;1=4;2=7")
+  /\ (match js_exec {| je_vars := [(b "output", JStr [])]; je_data := JObj [] |} (fst (sgen 2 (b "output") [[]] 3 ex_range)) with
+      | Ok je' => assoc_s (b "output") (je_vars je') | _ => None end) = Some (JStr (b "0=1;1=4;2=7"))
+  /\ render_chunks is_print_tbl (sprint 1 (fst (sgen 2 (b "output") [[]] 3 ex_range))) = b
+"  var rInit_4 = 1;
+  var rStep_4 = 3;
+  var rLimit_4 = Math.max(0, Math.ceil((8 - rInit_4) / rStep_4));
+  for (var rIndex_4 = 0; rIndex_4 < rLimit_4; rIndex_4++) {
+    var r_4 = rInit_4 + rIndex_4 * rStep_4;
+    output += rIndex_4;
+    output += '\u003D';
+    output += r_4;
+    if (!((rIndex_4 == rLimit_4 - 1))) {
+      output += ';';
+    }
   }
 ".
 Proof. vm_compute. repeat split; reflexivity. Qed.
